@@ -106,7 +106,7 @@ func genPlan(t *rapid.T) Plan {
 		p.Deaf, p.Huge = false, false
 		p.Consumer = []COp{{Op: "drain"}}
 	}
-	if p.Long == 0 && rapid.IntRange(0, 39).Draw(t, "busy") == 0 {
+	if p.Long == 0 && !raceBuild && rapid.IntRange(0, 39).Draw(t, "busy") == 0 {
 		p.Busy, p.Func, p.Sizes, p.Size = true, true, []int{1000}, 3
 		p.FullLat = rapid.SampledFrom([]int{200, 700}).Draw(t, "busylat")
 		p.Gaps = make([]int, 200)
@@ -430,6 +430,15 @@ func script(p Plan, out *vk.Outcome) error {
 }
 
 func runReps(p Plan) (vk.Outcome, error) {
+	if p.Busy && raceBuild {
+		// Not under the race detector: go1.26.8's runtime itself dies now and then (SIGSEGV in
+		// runtime.(*timer).maybeRunChan, goroutine 0) when a bubble's timer fires while the goroutine that
+		// selects on it is busy, in -race builds only - twice in three thorough runs with these plans, never
+		// without them. The plans run in the ordinary build.
+		var out vk.Outcome
+		out.Label("busy-plan-skipped-under-race")
+		return out, nil
+	}
 	reps := vk.Reps(3, 10)
 	if p.Long > 0 {
 		reps = vk.Reps(3, 2) // (thousands of items per execution: ten repetitions of these made the thorough tier take an hour)
